@@ -553,7 +553,7 @@ Section Dispatch.
     assert (Hlog : rev (log (dispatch T (47 :: a) (tag_of v) true 0)) = chain (f_id f) T a (tag_of v) 0 (Some [47])).
     { assert (Hroot : root_ok T (47 :: a)).
       { unfold root_ok. split; [exact Htree|]. cbn [strip Z.eqb Pos.eqb].
-        split; (eapply Forall_impl; [|exact Hch]; intros c Hc; apply Hc). }
+        split; (eapply Forall_impl; [|exact Hch]; intros c Hc; unfold achar in Hc; lia). }
       pose proof (tree_exactly_one_leaf (f_id f) T (47 :: a) (tag_of v) 0 Hroot) as H1.
       cbn [strip Z.eqb Pos.eqb] in H1.
       exact (proj1 (H1 (reaches_addressed hp tid _ _ _ _ Hdis Hdok Hr))). }
